@@ -15,6 +15,9 @@ def fits(labels):
 
 
 def recase(rng, labels):
+    # case lines carry valid Names only (<= 255 octets on the wire): drop leading labels if needed
+    while not fits(labels):
+        labels = labels[1:]
     out = []
     for l in labels:
         r = rng.random()
